@@ -50,7 +50,7 @@ type quadInst struct {
 
 func drawQuad(t *simrt.Tape) *quadInst {
 	q := &quadInst{}
-	q.n = 1 + t.Choose(simrt.KWorkload, 40)
+	q.n = 1 + t.Choose(simrt.KWorkload, 40*scale)
 	q.conc = t.Choose(simrt.KWorkload, q.n+3)
 	q.min, q.max = -1, 3
 	switch t.Choose(simrt.KWorkload, 8) {
@@ -115,7 +115,7 @@ func runQuad(t *simrt.Tape, rc *RunCtx) *Violation {
 	rc.Instance["f"] = q.fName
 	rc.declare("concurrent>n", "concurrent==1", "evaluations_overlapped", "exact_arithmetic_instance", "worker_got_no_task")
 	const prop = "C09"
-	log := newCallLog(128)
+	log := newCallLog(128 * scale)
 
 	// Reference: the serial path, and the sum of |terms| for the rounding bound.
 	serial := quad.Fixed(func(x float64) float64 { log.enter(x); defer log.leave(); return q.f(x) }, q.min, q.max, q.n, q.rule, 0)
